@@ -344,11 +344,7 @@ func (u *unitCtx) simpleStmt(level int) {
 				w.S("null")
 			}
 			w.S(";")
-			kind := "local"
-			if fin != "" {
-				kind = "finallocal"
-			}
-			u.scope = append(u.scope, varInfo{name: name, kind: kind, typ: u.g.sigs[ci].name, cls: ci})
+			u.scope = append(u.scope, varInfo{name: name, kind: "local", typ: u.g.sigs[ci].name, cls: ci, final: fin != ""})
 			return
 		}
 		fallthrough
@@ -595,7 +591,7 @@ func (u *unitCtx) callExpr(level, depth int) {
 		w.S(prefix + v.name)
 		w.S(rapid.SampledFrom([]string{".", ".", ".", " . ", "\n" + u.ind(level+2) + "."}).Draw(t, "dot"))
 		line, col := w.Line(), w.Col()
-		e := Event{Kind: "call", Line: line, Col: col, Recv: v.kind}
+		e := Event{Kind: "call", Line: line, Col: col, Recv: v.kind, FinalVar: v.final}
 		if prefix != "" {
 			e.Recv = "thisfield"
 		}
